@@ -176,6 +176,27 @@ Theorem link_shortcut_mulo_refuted : ~ acts_as_mov MULO 1 /\ ~ acts_as_mov MULOS
 Proof. exact mulo_is_not_a_mov. Qed.
 Print Assumptions link_shortcut_mulo_refuted.
 
+(* Link-time strength reduction by an immediate power of two.  The pairs (insn, insn') for which the CURRENT
+   simplify_func rewrites [insn x, y, 2^n] (2^n > 1 a signed 64-bit immediate) into [insn' x, y, n] are regenerated
+   from the source (none in the pinned tree; the translator also refuses every other place of simplify_func that
+   reads the immediate of a second source, assigns insn->code or creates an insn of an unknown code, which turns
+   [shortcut_one] into [INVALID_INSN] and breaks link_shortcuts_one_sound): each pair computes the same value,
+   defined in the same cases, for every y and every 1 <= n <= 62, and neither sets an overflow flag. *)
+Theorem link_strength_reductions_sound : forall p, In p strength_pow2 -> acts_as_shift (fst p) (snd p).
+Proof.
+  intros p H. apply strength_ok_sound.
+  assert (E : forallb strength_ok strength_pow2 = true) by reflexivity.
+  rewrite forallb_forall in E. now apply E.
+Qed.
+Print Assumptions link_strength_reductions_sound.
+
+(* DIV x,y,2^n => RSH x,y,n (seeded change C04-z1) is not sound: -9 / 8 = -1 but -9 >> 3 = -2;
+   MUL => LSH and UDIV => URSH are accepted by the checker the theorem above computes with *)
+Theorem link_strength_div_rsh_refuted :
+  ~ acts_as_shift DIV RSH /\ forallb strength_ok [(MUL, LSH); (UDIV, URSH)] = true.
+Proof. split; [exact div_is_not_rsh | exact strength_ok_nonvacuous]. Qed.
+Print Assumptions link_strength_div_rsh_refuted.
+
 (* Return merging: the extension put before the single ret computes exactly the narrowing /
    extension the reference semantics applies to a returned value of that type ... *)
 Theorem one_ret_ext_preserves : forall t o k, ret_ext t = Some (o, k) ->
